@@ -72,13 +72,24 @@ func get() (*proc, error) {
 // ok=false means the independent decoder rejects the text (msg says why);
 // err != nil means the helper itself failed.
 func Decode(format, text string) (docs []any, ok bool, msg string, err error) {
+	return decode(format, text, "")
+}
+
+// DecodeKeyText is Decode with bkl's reading of YAML mapping keys: a scalar key is
+// the text of the key as written (`1.10: x` has the key "1.10"), whatever it would
+// resolve to as a value. Used only to confirm inputs written with plain keys.
+func DecodeKeyText(format, text string) (docs []any, ok bool, msg string, err error) {
+	return decode(format, text, "text")
+}
+
+func decode(format, text, keys string) (docs []any, ok bool, msg string, err error) {
 	p, err := get()
 	if err != nil {
 		return nil, false, "", err
 	}
 	p.mu.Lock()
 	defer p.mu.Unlock()
-	req, _ := json.Marshal(map[string]any{"op": "decode", "fmt": format, "text": text})
+	req, _ := json.Marshal(map[string]any{"op": "decode", "fmt": format, "text": text, "keys": keys})
 	if _, err := p.in.Write(append(req, '\n')); err != nil {
 		return nil, false, "", err
 	}
